@@ -76,7 +76,8 @@ def monitors(CL, LL, cfg, events, drv, log):
 
 def plain_events(events):
     """events as they go into replay files / case lines (raw bytes dropped: they are re-derived from the log)"""
-    return [list(e[:3]) if e[0] == 6 else list(e) for e in events]
+    _, LL = libs()
+    return [list(e[:3]) if e[0] == 6 else list(LL.model_event(e)) for e in events]
 
 
 def jsonable(events):
@@ -97,7 +98,8 @@ def run_case_impl(CL, cfg, events):
         if e[0] == CL.EV_FETCH_OK and len(e) > 3 and e[3] is not None:
             e[3] = bytes(e[3])
         evs.append(tuple(e))
-    drv = CL.Driver(cfg)
+    _, LL = libs()
+    drv = LL.LDriver(cfg)
     drv.values_seen = []
     for ev in evs:
         drv.step(ev)
